@@ -751,6 +751,153 @@ func apiCheckErrors(t *testing.T) {
 	rec(nil, 0)
 }
 
+// C02: Parse is total
+func apiSyntaxErrOK(err error) bool {
+	switch err.(type) {
+	case ErrorInvalidSyntax, ErrorInvalidArgument, ErrorFunctionNotFound, ErrorNotSupported:
+		return true
+	}
+	return false
+}
+
+func apiCheckParse(t *testing.T, path string, cfgs ...Config) {
+	defer func() {
+		if r := recover(); r != nil {
+			t.Errorf("REPRODUCED: Parse(%q) panicked: %v", path, r)
+		}
+	}()
+	f, err := Parse(path, cfgs...)
+	switch {
+	case f == nil && err == nil:
+		t.Errorf("REPRODUCED: Parse(%q) returned (nil, nil)", path)
+	case f != nil && err != nil:
+		t.Errorf("REPRODUCED: Parse(%q) returned a function and the error %v", path, err)
+	case err != nil && !apiSyntaxErrOK(err):
+		t.Errorf("REPRODUCED: Parse(%q) returned an error of type %T: %v", path, err, err)
+	}
+}
+
+func apiCheckParseTotal(t *testing.T) {
+	operands := []string{`1`, `-1.5e3`, `'s'`, `"s"`, `true`, `null`, `@.a`, `$.a`, `@`, `$`, `@.a.f()`, `$..a`, `@.*`, `@.a.g()`, `@.g().g()`, `@.a[0]`, `$.a[0:1]`, `@['a','b']`, `1e999`, `0x1`, `+1`}
+	ops := []string{`==`, `!=`, `<`, `<=`, `>`, `>=`, `=~`}
+	cfg := apiConfig(false)
+	cfg.SetFilterFunction("f", func(v interface{}) (interface{}, error) { return v, nil })
+	cfg.SetAggregateFunction("g", func(v []interface{}) (interface{}, error) { return v, nil })
+	var paths []string
+	for _, a := range operands {
+		paths = append(paths, `$[?(`+a+`)]`, `$[?(!`+a+`)]`)
+		for _, o := range ops {
+			for _, b := range operands {
+				paths = append(paths, `$[?(`+a+` `+o+` `+b+`)]`)
+			}
+			paths = append(paths, `$[?(`+a+` `+o+` /re/)]`, `$[?(`+a+` `+o+` /(/)]`)
+		}
+	}
+	paths = append(paths, apiPaths()...)
+	paths = append(paths, ``, ` `, `$.`, `$..`, `$[`, `$[]`, `$['a`, `$["a"`, `$[?(`, `$[?()]`, `$[?(@.a ==)]`, `$[(1+1)]`, `$[(]`, `$.a.b(`, `$.a.nofunc()`, `$.é[`, `$.\u00e9`, "$.\xff", "$[\x00]", `$[99999999999999999999]`, `$[1:99999999999999999999]`,
+		`$[?(@.a == 99999999999999999999999999999999999999999999999999999999999999999999999999999999999999999999999999999999999e999999)]`, `$[?(@.a =~ /[/)]`, `$['\ud800']`, `$['\z']`, `$["\z"]`,
+		`$[?(@.a.g().g() == 1)]`, `$[?($.g().g())]`, `$.a.g().g()`, `$[?(@.a == @.b)]`, `$[?(@.* == 1)]`, `$[?(@.a && (@.b || !@.c))]`, `$[?(((@.a)))]`, `$[?((@.a) == 1)]`, `@.a`, `a`, `['a']`, `..a`, `$.*.*..*[*][*,*]`, `$[0,1:2,*]`, `$[ 0 , 1 ]`, `$[?( @.a==1 )]`)
+	// character-level mutations
+	seedPaths := []string{`$.a[?(@.b == 'c' && $.d > 1)].e.f()`, `$..['a','b'][0:2:1].g()`, `$[?(!@.a || 1 <= @.b)]`}
+	alphabet := []rune("$@.[]()'\"?*!=<>&|,: -+0a\\/~é\x00")
+	x := uint32(12345)
+	for _, sp := range seedPaths {
+		r := []rune(sp)
+		for k := 0; k < 400; k++ {
+			x = x*1664525 + 1013904223
+			m := append([]rune{}, r...)
+			pos := int(x>>8) % len(m)
+			x = x*1664525 + 1013904223
+			ch := alphabet[int(x>>8)%len(alphabet)]
+			switch (x >> 4) % 3 {
+			case 0:
+				m[pos] = ch
+			case 1:
+				m = append(m[:pos], m[pos+1:]...)
+			default:
+				m = append(m[:pos], append([]rune{ch}, m[pos:]...)...)
+			}
+			paths = append(paths, string(m))
+		}
+	}
+	for _, p := range paths {
+		apiCheckParse(t, p, cfg)
+		if t.Failed() {
+			return
+		}
+		apiCheckParse(t, p)
+		if t.Failed() {
+			return
+		}
+	}
+}
+
+// C19: Parse depends only on its own arguments
+func apiCheckParseIndependent(t *testing.T) {
+	plain := Config{}
+	withF := Config{}
+	withF.SetFilterFunction("f", func(v interface{}) (interface{}, error) { return "F", nil })
+	withF.SetAggregateFunction("g", func(v []interface{}) (interface{}, error) { return "G", nil })
+	withAcc := Config{}
+	withAcc.SetAccessorMode()
+	withAcc.SetFilterFunction("f", func(v interface{}) (interface{}, error) { return "F2", nil })
+	failing := []string{`$.a.nofunc()`, `$[(1)]`, `$[?(@.* == 1)]`, `$[99999999999999999999]`, `$.a.f().zz(`, `$[?(@.a =~ /(/)]`, `$['\z']`, `$.a.f()[`, `$[?(@.a == 1)]trailing`}
+	doc := apiDecode(`{"a":1,"b":[1,2]}`)
+	probe := func(ctx string) {
+		// without a config no function is known and results are plain values
+		if _, err := Parse(`$.a.f()`); err == nil {
+			t.Errorf("REPRODUCED: %s: Parse(`$.a.f()`) without Config succeeded: a function leaked from an earlier call", ctx)
+			return
+		} else if _, ok := err.(ErrorFunctionNotFound); !ok {
+			t.Errorf("REPRODUCED: %s: Parse(`$.a.f()`) without Config: %T %v", ctx, err, err)
+			return
+		}
+		if _, err := Parse(`$.b.g()`, plain); err == nil {
+			t.Errorf("REPRODUCED: %s: aggregate function leaked into a call with an empty Config", ctx)
+			return
+		}
+		res, err := Retrieve(`$.a`, doc)
+		if err != nil || len(res) != 1 || res[0] != 1.0 {
+			t.Errorf("REPRODUCED: %s: Retrieve(`$.a`) without Config = %#v, %v (accessor mode or state leaked)", ctx, res, err)
+			return
+		}
+		res, err = Retrieve(`$.a.f()`, doc, withF)
+		if err != nil || len(res) != 1 || res[0] != "F" {
+			t.Errorf("REPRODUCED: %s: Retrieve(`$.a.f()`, withF) = %#v, %v", ctx, res, err)
+			return
+		}
+	}
+	probe("initially")
+	for _, cfg := range []Config{withF, withAcc} {
+		for _, fp := range failing {
+			func() {
+				defer func() { recover() }()
+				_, _ = Parse(fp, cfg)
+			}()
+			probe(fmt.Sprintf("after the failing Parse(%q) with a Config", fp))
+			if t.Failed() {
+				return
+			}
+		}
+		_, _ = Parse(`$.a.f()`, cfg)
+		probe("after a successful Parse with a Config")
+		if t.Failed() {
+			return
+		}
+	}
+	// a parsed function keeps the functions it was parsed with
+	cfg := Config{}
+	cfg.SetFilterFunction("f", func(v interface{}) (interface{}, error) { return "old", nil })
+	fn, err := Parse(`$.a.f()`, cfg)
+	if err == nil {
+		cfg.SetFilterFunction("f", func(v interface{}) (interface{}, error) { return "new", nil })
+		res, err := fn(doc)
+		if err != nil || len(res) != 1 || res[0] != "old" {
+			t.Errorf("REPRODUCED: a parsed function changed behaviour after its Config was modified: %#v %v", res, err)
+		}
+	}
+}
+
 type apiStruct struct{ X int }
 
 // C20: documents with non-JSON leaves
@@ -792,6 +939,10 @@ func TestVerifReplay(t *testing.T) {
 		if !t.Failed() {
 			apiCheckPure(t)
 		}
+	case "C02":
+		apiCheckParseTotal(t)
+	case "C19":
+		apiCheckParseIndependent(t)
 	case "C14":
 		apiCheckFunctions(t)
 	case "C15":
